@@ -24,6 +24,18 @@ TIMES = 'history/times.py'; HFILES = 'history/files.py'; TNETS = 'server/tnetstr
 POLL = 'server/enip/poll.py'; DEFAULTS = 'server/enip/defaults.py'; NETWORK = 'server/network.py'
 
 VARIANTS = [
+    # ---- C12 text -> operation -> service ( T-ATTROPS, T-METHODS )
+    V( 'attrops-first-segment', GETATTR, "path_end = op['path'][-1]", "path_end		= op['path'][0]", fires=[ 'T-ATTROPS' ] ),
+    V( 'attrops-set-get-swapped', GETATTR, "'set_attribute_single' if 'data' in op else 'get_attribute_single'", "'get_attribute_single' if 'data' in op else 'set_attribute_single'", fires=[ 'T-ATTROPS' ] ),
+    V( 'attrops-element-dropped', GETATTR, "elif 'symbolic' in path_end or 'attribute' in path_end or 'element' in path_end:", "elif 'symbolic' in path_end or 'attribute' in path_end:", fires=[ 'T-ATTROPS' ] ),
+    V( 'attrops-data-allowed-for-all', GETATTR, 'assert \'data\' not in op, "All Attributes cannot be operated on using Set Attribute services"', "pass", fires=[ 'T-ATTROPS' ] ),
+    V( 'attrops-tests-reordered', GETATTR, "elif 'symbolic' in path_end or 'attribute' in path_end or 'element' in path_end:", "elif 'element' in path_end or 'attribute' in path_end or 'symbolic' in path_end:", silent=[ 'T-ATTROPS' ] ),
+    V( 'methods-gas-builds-gaa', CLIENT, "req = self.get_attribute_single( timeout=timeout, send=not multiple, **op )", "req		= self.get_attributes_all( timeout=timeout, send=not multiple, **op )", fires=[ 'T-METHODS' ] ),
+    V( 'methods-read-always-sent', CLIENT, "req = self.read( timeout=timeout, send=not multiple, **op )", "req		= self.read( timeout=timeout, send=True, **op )", fires=[ 'T-METHODS' ] ),
+    V( 'methods-default-by-elements', CLIENT, "method = op.pop( 'method', 'write' if 'data' in op else 'read' )", "method		= op.pop( 'method', 'write' if op.get( 'data' ) else 'read' )", fires=[ 'T-METHODS' ], why='a write of an empty value list is issued as a read' ),
+    V( 'methods-frag-when-offset-falsy', CLIENT, "if offset is None:\n req.read_tag", "if not offset:\n            req.read_tag", fires=[ 'T-METHODS' ], why='offset 0 ( the forced Read Tag Fragmented ) is issued as the unfragmented service' ),
+    V( 'methods-write-context-without-type', CLIENT, "req.write_tag = {\n 'elements': elements,\n 'data': data,\n 'type': tag_type,\n }", "req.write_tag	= {\n                'elements':	elements,\n                'data':		data,\n            }", fires=[ 'T-METHODS' ] ),
+    V( 'methods-mirrored-test', CLIENT, "elif method == 'read':", "elif 'read' == method:", silent=[ 'T-METHODS' ] ),
     # ---- C05 / C03 / C08 handler rules
     V( 'status-preset-2107-deleted', LOGIX, "data.status = 0xFF\n data.status_ext= {'size': 1, 'data':[0x2107]}", "pass", fires=[ 'S-STATUS' ] ),
     V( 'status-2105-2107-swapped', LOGIX, "'data': [ 0x2105 ]}", "'data': [ 0x2107 ]}", fires=[ 'S-STATUS' ] ),
@@ -126,7 +138,7 @@ VARIANTS = [
     V( 'route-eq-to-ne', UCMM, "or route_path == self.route_path # Or they match", "or route_path != self.route_path", fires=[ 'B-ROUTE' ] ),
     V( 'route-no-empty-accept', UCMM, "assert ( not route_path # Request has no route_path (Simple Request); its to some Object known to this simulator\n or ( not self.route_path", "assert ( route_path is None\n                                     or ( not self.route_path", fires=[ 'B-ROUTE' ] ),
     V( 'route-demorgan', UCMM, "or route_path == self.route_path # Or they match", "or not ( route_path != self.route_path )", silent=[ 'B-ROUTE', 'D-REFUSE' ] ),
-    V( 'route-check-after-dispatch', UCMM, "CM.request( unc_send, addr=addr )\n\n # After successful processing", "CM.request( unc_send, addr=addr )\n                        CM.request( unc_send, addr=addr ) if False else None\n\n                    # After successful processing", silent=[ 'B-ROUTE' ] ),
+    V( 'route-check-after-dispatch', UCMM, "CM.request( unc_send, addr=addr )\n # Whatever Object that was", "CM.request( unc_send, addr=addr )\n                        CM.request( unc_send, addr=addr ) if False else None\n                        # Whatever Object that was", silent=[ 'B-ROUTE' ] ),
     V( 'main-simple-none', MAIN, "route_path = device.parse_route_path( args.route_path ) if args.route_path else False", "route_path		= device.parse_route_path( args.route_path ) if args.route_path else None", fires=[ 'C-MAIN' ] ),
     # ---- library tables
     V( 'reserved-pop-removed', DOT, "'pop', 'popitem', 'setdefault', 'update',\n '_resolve',", "'popitem', 'setdefault', 'update',\n        '_resolve',", fires=[ 'T-RESERVED' ] ),
